@@ -707,7 +707,7 @@ class World:
             elif st[0] == 'bump':
                 self.apply_bump([(st[1], st[2])])
             elif st[0] == 'work':
-                m = [m for m in self.tasks if m.jobid == st[1]][0]
+                m = [m for m in self.tasks if m.jobid == st[1] and (len(st) < 3 or (m.target or '__all__') == st[2])][0]
                 self.tasks.remove(m)
                 self.work(m)
 
@@ -727,7 +727,7 @@ class World:
 
 
 # ---------------------------------------------------------------------------- one scenario
-def run_scenario(store, sc, seed=0, model=None):
+def run_scenario(store, sc, seed=0, model=None, probe=None):
     """sc = {'algs': [...], 'targets': [...], 'bumps': [[root tag, target], ...] or [[...], [...]] groups}
     returns (problems, stats)"""
     import random
@@ -746,6 +746,8 @@ def run_scenario(store, sc, seed=0, model=None):
         PAD[0] = w.ctl.PAD[0] = 'bulk:' + 'x' * int(sc['bulk']) if sc.get('bulk') else ''
         w.organize([tag_of(a) for a in algs], targets)
         w.script([tuple(s) for s in sc.get('script', [])])
+        if probe is not None:
+            probe(w)
         what, b = 'initial', None
         while True:
             n0 = len(w.executed)
@@ -882,6 +884,95 @@ def gen_scenario(r, small=False, aspects=False):
     return {'algs': [dict(a, inputs=[list(x) for x in a['inputs']]) for a in algs], 'targets': targets, 'bumps': bumps}
 
 
+# ---------------------------------------------------------------------------- small scope, every interleaving
+SMALL = {
+    'two-roots': ([{'task': 'demo', 'name': 'P', 'values': ['p'], 'inputs': [], 'checkpoint': False},
+                   {'task': 'demo', 'name': 'Q', 'values': ['q'], 'inputs': [], 'checkpoint': False},
+                   {'task': 'demo', 'name': 'N', 'values': ['n'], 'inputs': [(0, 'p'), (1, 'q')], 'checkpoint': False}],
+                  ['T1']),
+    'chain': ([{'task': 'demo', 'name': 'R', 'values': ['r'], 'inputs': [], 'checkpoint': False},
+               {'task': 'demo', 'name': 'B', 'values': ['b'], 'inputs': [(0, 'r')], 'checkpoint': False},
+               {'task': 'demo', 'name': 'C', 'values': ['c'], 'inputs': [(1, 'b')], 'checkpoint': False}],
+              ['T1']),
+    'diamond': ([{'task': 'demo', 'name': 'R', 'values': ['r'], 'inputs': [], 'checkpoint': False},
+                 {'task': 'demo', 'name': 'S', 'values': ['s'], 'inputs': [], 'checkpoint': False},
+                 {'task': 'demo', 'name': 'B', 'values': ['b'], 'inputs': [(0, 'r')], 'checkpoint': False},
+                 {'task': 'demo', 'name': 'D', 'values': ['d'], 'inputs': [(2, 'b'), (1, 's')], 'checkpoint': False}],
+                ['T1']),
+    'root-aspect': ([{'task': 'demo', 'name': 'R', 'values': ['r'], 'inputs': [], 'checkpoint': False},
+                     {'task': 'agg', 'name': 'A', 'values': ['a'], 'inputs': [(0, 'r')], 'checkpoint': False,
+                      'kind': 'analysis'},
+                     {'task': 'demo', 'name': 'C', 'values': ['c'], 'inputs': [(1, 'a')], 'checkpoint': False}],
+                    ['T1', 'T2']),
+}
+
+
+def _small_task(args):
+    """one node of the search tree: replay the prefix on a fresh world, list what can happen next, then let
+    everything finish and compare the store with a from-scratch run"""
+    name, prefix, seed, max_bumps, want_model = args
+    from .c08_store import Store
+    global _SMALL_STORE  # pylint: disable=global-statement
+    try:
+        store = _SMALL_STORE
+    except NameError:
+        store = _SMALL_STORE = Store()
+        store.install_loopback()
+    algs, targets = SMALL[name]
+    sc = {'algs': algs, 'targets': targets, 'bumps': [], 'script': [list(s) for s in prefix]}
+    avail = []
+
+    def probe(w):
+        used = sum(1 for s in prefix if s[0] == 'bump')
+        if used < max_bumps:
+            for tag in sorted(w.roots):
+                for t in targets:
+                    avail.append(('bump', tag, t))
+        if not prefix or prefix[-1][0] != 'tick':
+            avail.append(('tick',))
+        for m in sorted(w.tasks, key=lambda m: (m.jobid, m.target or '__all__')):
+            a = ('work', m.jobid, m.target or '__all__')
+            if a not in avail:
+                avail.append(a)
+
+    model = [] if want_model else None
+    problems, stats = run_scenario(store, _norm(sc), seed, model=model, probe=probe)
+    return name, prefix, avail, problems, (model[0] if model else None), stats['executions']
+
+
+def exhaustive(ctx, res, depth=6, max_bumps=2):
+    """every sequence of {new source data for a root, dispatch tick, let one waiting unit run} up to `depth`
+    on three small engines, each followed by a run to quiescence"""
+    import multiprocessing
+    from . import c02_model
+
+    lean = bool(ctx.get('lean'))
+    frontier = [(name, ()) for name in SMALL]
+    cases = []
+    with multiprocessing.Pool(16) as pool:
+        for level in range(depth + 1):
+            jobs = [(name, prefix, ctx['seed'], max_bumps, lean) for name, prefix in frontier]
+            nxt = []
+            for name, prefix, avail, problems, case, execs in pool.imap_unordered(_small_task, jobs, chunksize=8):
+                sc = {'algs': SMALL[name][0], 'targets': SMALL[name][1], 'bumps': [],
+                      'script': [list(s) for s in prefix]}
+                for sig, what in problems:
+                    res.hit(sig, what, {'kind': 'e2e', 'scenario': sc, 'seed': ctx['seed']})
+                res.case(('e2e-small', name, prefix), nontrivial=execs > 3)
+                res.count('e2e-small:histories')
+                res.count(f'e2e-small:depth-{level}')
+                if case is not None and not case.get('outside'):
+                    cases.append(case)
+                if level < depth:
+                    nxt.extend((name, prefix + (a,)) for a in avail)
+            frontier = nxt
+    if lean and cases:
+        outs = common.driver([c['line'] for c in cases], 'Sched')
+        for c, o in zip(cases, outs):
+            c02_model.compare(res, c, o)
+            res.traces += 1
+
+
 def _norm(sc):
     sc = dict(sc)
     sc['algs'] = [dict(a, inputs=[tuple(x) for x in a['inputs']]) for a in sc['algs']]
@@ -945,6 +1036,8 @@ def run(ctx, res):
         for c, o in zip(inside, outs):
             c02_model.compare(res, c, o)
             res.traces += 1
+    if thorough:
+        exhaustive(ctx, res, depth=int(os.environ.get('VERIF_C02_DEPTH', '7')))
     res.assumptions.append('C02 end to end: sockets, Context.abort, fsm, chronicle and the md5sum/sha1sum '
                            'sub-processes are replaced (hashlib); tasks only, no analyses')
 
